@@ -1,10 +1,14 @@
 import Fabio.Driver.Proto
 import Fabio.Model.C18
+import Fabio.Model.C18Exit
 namespace Fabio.Driver.C18
 open Lean Fabio.Driver Fabio.Model.C18
 
 /-- the contract the current tree is expected to satisfy (the repaired one) -/
 def contract : GrpcContract := .stopsAtDeadline
+
+/-- … and for websocket sessions (the repaired one: `proxy.Shutdown` waits for them, D31) -/
+def wsContract : WsContract := .waitedFor
 
 structure SrvIn where
   kind : String
@@ -15,6 +19,10 @@ structure SrvIn where
   dial : Nat
   /-- its route was removed and `proxy.CloseProxy` ran just before the shutdown: not registered any more -/
   removed : Bool
+  /-- websocket sessions (http, and the https child of inetaf): hijacked connections -/
+  ws : List Time
+  /-- > 0: the listener was still being started when shutdown began — its address was busy until `pending` ms after -/
+  pending : Nat
 
 def parseTime (j : Json) : Except String Time :=
   match j with
@@ -35,15 +43,17 @@ def parseSrv (j : Json) : Except String SrvIn := do
   let hwork ← parseTimes j "hwork"
   let dial := (j.getObjValAs? Nat "dial").toOption.getD 0
   let removed := (j.getObjValAs? Bool "removed").toOption.getD false
-  return { kind, work, hwork, dial, removed }
+  let ws ← parseTimes j "ws"
+  let pending := (j.getObjValAs? Nat "pending").toOption.getD 0
+  return { kind, work, hwork, dial, removed, ws, pending }
 
 def toServer (s : SrvIn) : Except String Server :=
   match s.kind with
-  | "http" => .ok (.single { kind := .http, work := s.work })
+  | "http" => .ok (.single { kind := .http, work := s.work, hijacked := s.ws })
   | "tcp" => .ok (.single { kind := .tcp, work := s.work ++ List.replicate s.dial none })
   | "sni" => .ok (.single { kind := .tcp, work := s.work ++ List.replicate s.dial none })
   | "grpc" => .ok (.single { kind := .grpc, work := s.work })
-  | "inetaf" => .ok (.multi [{ kind := .tcp, work := s.work ++ List.replicate s.dial none }, { kind := .http, work := s.hwork }])
+  | "inetaf" => .ok (.multi [{ kind := .tcp, work := s.work ++ List.replicate s.dial none }, { kind := .http, work := s.hwork, hijacked := s.ws }])
   | k => .error s!"unknown server kind {k}"
 
 def fateStr : Fate → String
@@ -89,8 +99,9 @@ def specOf (wait : Nat) (srvs : List SrvIn) (impl : Json) : Option Bool := do
     let fw ← (strList js "work").toOption
     let fh ← (strList js "hwork").toOption
     let fd := (strList js "dial").toOption.getD []
-    if fw.length != s.work.length || fh.length != s.hwork.length || fd.length != s.dial then none
-    for (e, f) in (s.work ++ s.hwork).zip (fw ++ fh) do
+    let fs := (strList js "ws").toOption.getD []
+    if fw.length != s.work.length || fh.length != s.hwork.length || fd.length != s.dial || fs.length != s.ws.length then none
+    for (e, f) in (s.work ++ s.hwork ++ s.ws).zip (fw ++ fh ++ fs) do
       if tle e (some wait) && f != "completed" then ok := false
   return ok
 
@@ -99,25 +110,35 @@ def shutdownH : Handler := fun inp impl => do
   let sj ← inp.getObjVal? "servers"
   let sa ← sj.getArr?
   let srvs ← sa.toList.mapM parseSrv
-  let servers ← (srvs.filter (fun s => !s.removed)).mapM toServer
-  let ret := shutdownReturn contract 0 wait servers
+  -- every scenario server is a start: the ordinary ones registered long before the shutdown (tick 0, shutdown at
+  -- tick 1), a removed one is deleted again by `closeProxy`, one whose address is busy never registers
+  let starts ← srvs.zipIdx.mapM (fun (s, i) => do
+    let srv ← toServer s
+    let (_, r) := listenAndServe (s.pending > 0) (toString i) srv []
+    return ({ addr := toString i, srv := srv, registersAt := if r == .registered then some 0 else none } : Start))
+  let reg := srvs.zipIdx.foldl (fun reg (s, i) => if s.removed then closeProxy (toString i) reg else reg) (snapshot 1 starts)
+  let servers := reg.map (·.2)
+  let ret := shutdownAll wsContract contract 0 wait servers
   let m := Json.mkObj [
     ("dur", Json.str (durStr (durClass 0 wait ret))),
     ("servers", Json.arr (srvs.map (fun s =>
         let (k1, k2) := leafKinds s
         if s.removed then  -- `CloseProxy` = `srv.Close()`: every tunnel is cut on the spot
-          Json.mkObj [("work", Json.arr (s.work.map (fun _ => Json.str "cut")).toArray), ("hwork", Json.arr #[]), ("dial", Json.arr #[])]
+          Json.mkObj [("work", Json.arr (s.work.map (fun _ => Json.str "cut")).toArray), ("hwork", Json.arr #[]), ("dial", Json.arr #[]), ("ws", Json.arr #[])]
         else
+        -- a hijacked session is left alone like any http connection still active at the deadline
         Json.mkObj [("work", fatesJson wait k1 s.work), ("hwork", fatesJson wait k2 s.hwork),
-                    ("dial", fatesJson wait k1 (List.replicate s.dial none))])).toArray),
-    ("accepted", Json.arr (srvs.map (fun _ => Json.bool false)).toArray)]
-  let nwork := srvs.foldl (fun n s => n + s.work.length + s.hwork.length + s.dial) 0
+                    ("dial", fatesJson wait k1 (List.replicate s.dial none)), ("ws", fatesJson wait .http s.ws)])).toArray),
+    ("accepted", Json.arr (starts.map (fun st => Json.bool (startAccepts 1 st 1 || startAccepts 1 st 100000))).toArray)]
+  let nwork := srvs.foldl (fun n s => n + s.work.length + s.hwork.length + s.dial + s.ws.length) 0
   let dOpen := srvs.any (fun s => s.dial > 0)
   let kindsWith (p : SrvIn → Bool) := srvs.any p
   let gOpen := kindsWith (fun s => s.kind == "grpc" && beyond wait s.work)
   let tOpen := kindsWith (fun s => (s.kind == "tcp" || s.kind == "sni" || s.kind == "inetaf") && beyond wait s.work)
   let hOpen := kindsWith (fun s => (s.kind == "http" && beyond wait s.work) || (s.kind == "inetaf" && beyond wait s.hwork))
-  let cls := if srvs.any (·.removed) then "route-removed-before-shutdown" else if dOpen then "tcp-dial-pending" else if gOpen then "grpc-open-work" else if tOpen then "tcp-open-work" else if hOpen then "http-open-work"
+  let cls := if srvs.any (·.removed) then "route-removed-before-shutdown"
+             else if srvs.any (·.pending > 0) then "listener-start-pending"
+             else if srvs.any (fun s => !s.ws.isEmpty) then "websocket-session" else if dOpen then "tcp-dial-pending" else if gOpen then "grpc-open-work" else if tOpen then "tcp-open-work" else if hOpen then "http-open-work"
              else if nwork > 0 then "short-work-only" else "idle"
   let tag := if srvs.length > 1 then cls ++ "+mix" else cls
   match specOf wait srvs impl with
@@ -128,13 +149,27 @@ def shutdownH : Handler := fun inp impl => do
       ("dur", (impl.getObjVal? "dur").toOption.getD Json.null),
       ("servers", (impl.getObjVal? "servers").toOption.getD Json.null),
       ("accepted", (impl.getObjVal? "accepted").toOption.getD Json.null)]
-    return ({ model := m, agree := m == implCore, spec := sp, nontrivial := nwork > 0, tag := tag } : Verdict).toJson
+    return ({ model := m, agree := m == implCore, spec := sp, nontrivial := nwork > 0 || srvs.any (·.pending > 0), tag := tag } : Verdict).toJson
 
 /-! `c18.process`: the real `fabio` binary, SIGTERM, probes. Input: `{"wait","grace","dynamic":bool,"refresh"}`;
 observation: `{"exit": "early|deadline|over", "accepted_after": bool, "order_ok": bool, "short_completed": bool}`. -/
 def processH : Handler := fun inp impl => do
   let dynamic := (inp.getObjValAs? Bool "dynamic").toOption.getD false
-  let m := Json.mkObj [("exit", "deadline"), ("accepted_after", false), ("order_ok", true), ("short_completed", true)]
+  let wait ← inp.getObjValAs? Nat "wait"
+  let grace ← inp.getObjValAs? Nat "grace"
+  let via := (inp.getObjValAs? String "via").toOption.getD ""
+  let notcp := (inp.getObjValAs? Bool "notcp").toOption.getD false
+  -- the configuration as servers with their work: an endless piece and one that ends a quarter into the wait
+  let short : Time := some (grace + wait / 4)
+  let two : List Time := [none, short]
+  let httpLeaf : Leaf := { kind := .http, work := if via == "http" then two else [], hijacked := if via == "ws" then two else [] }
+  let servers : List Server := [.single httpLeaf]
+    ++ (if notcp then [] else [.single { kind := .tcp, work := if via == "" then two else [] }])
+    ++ (if dynamic then [.single { kind := .tcp, work := [] }] else [])
+  -- signal at tick 0: the handler sleeps the grace period, calls proxy.Shutdown(wait), the process ends when it returns
+  let exit := processExit wsContract contract 0 grace wait servers
+  let m := Json.mkObj [("exit", Json.str (durStr (durClass 0 (grace + wait) exit))), ("accepted_after", false), ("order_ok", true),
+                       ("short_completed", Json.bool (processFate exit short == .completed))]
   let core := Json.mkObj [
       ("exit", (impl.getObjVal? "exit").toOption.getD Json.null),
       ("accepted_after", (impl.getObjVal? "accepted_after").toOption.getD Json.null),
@@ -146,11 +181,58 @@ def processH : Handler := fun inp impl => do
     let sp := ex != "over" && !acc && ord && sh
     let second := (inp.getObjValAs? String "second").toOption.getD ""
     let base := (if dynamic then "dynamic" else "static") ++ (if second != "" then "+second-signal" else "")
+      ++ (if via == "http" then "+http-request" else if via == "ws" then "+websocket" else "") ++ (if notcp then "+no-tcp-listener" else "")
     let tag := if acc then base ++ "-listener-accepts-after-shutdown" else if !sh then base ++ "-short-work-cut"
                else if !ord then base ++ "-closed-during-grace" else if ex == "over" then base ++ "-exit-late" else base
     return ({ model := m, agree := m == core, spec := sp, nontrivial := true, tag := tag } : Verdict).toJson
   | _, _, _, _ =>
     return ({ model := m, agree := false, spec := true, nontrivial := false, tag := "impl-unparsed" } : Verdict).toJson
 
-def streams : List (String × Handler) := [("c18.shutdown", shutdownH), ("c18.process", processH)]
+/-! `c18.exit`: the real package `exit` in a child process. Input: `{"handlers","hups","gap","end","handler_ms",
+"again"}`; observation: `{"ignored": bool, "calls": [sig…] sorted, "exit": "in-time|late|never", "drained": bool}`. -/
+open Fabio.Model.C18Exit in
+def exitH : Handler := fun inp impl => do
+  let k ← inp.getObjValAs? Nat "handlers"
+  let n ← inp.getObjValAs? Nat "hups"
+  let endS ← inp.getObjValAs? String "end"
+  let again := (inp.getObjValAs? String "again").toOption.getD ""
+  let ev : String → Except String Ev := fun s => match s with
+    | "TERM" => .ok (.sig .term) | "INT" => .ok (.sig .int) | "exit" => .ok .exitCall | "fatal" => .ok .exitCall
+    | s => .error s!"unknown event {s}"
+  let last ← ev endS
+  let more ← if again == "" then pure [] else do let e ← ev again; pure [e]
+  let afterHups := Fabio.Model.C18Exit.run .reselects (initial k) (List.replicate n .hup)
+  let p := Fabio.Model.C18Exit.run .reselects (initial k) (history n last ++ more)
+  let sigName : LState → Option String := fun l => match l with
+    | .ran (some .term) => some "TERM" | .ran (some .int) => some "INT" | .ran none => some "nil" | .waiting _ => none
+  let calls := (p.listeners.filterMap sigName).toArray.qsort (· < ·)
+  let allRan := p.listeners.all handlerRan
+  -- the process ends when `main` returns from `exit.Wait()` or `exit.Exit` gets past `wg.Wait()`: both need every
+  -- handler goroutine to have returned
+  let m := Json.mkObj [
+    ("ignored", Json.bool (!afterHups.quitClosed && afterHups.listeners.all (fun l => !handlerRan l))),
+    ("calls", Json.arr (calls.map Json.str)),
+    ("exit", Json.str (if allRan then "in-time" else "never")),
+    ("drained", Json.bool allRan)]
+  let core := Json.mkObj [
+    ("ignored", (impl.getObjVal? "ignored").toOption.getD Json.null),
+    ("calls", (impl.getObjVal? "calls").toOption.getD Json.null),
+    ("exit", (impl.getObjVal? "exit").toOption.getD Json.null),
+    ("drained", (impl.getObjVal? "drained").toOption.getD Json.null)]
+  let want := match last with | .sig .term => "TERM" | .sig .int => "INT" | _ => "nil"
+  match (impl.getObjValAs? Bool "ignored").toOption, (strList impl "calls").toOption,
+        (impl.getObjValAs? String "exit").toOption, (impl.getObjValAs? Bool "drained").toOption with
+  | some ign, some cs, some ex, some dr =>
+    -- the specification on the observation alone: SIGHUPs did nothing; the first terminating event called every
+    -- handler once, with its signal; the process ended, in time, after the handlers had finished
+    let sp := ign && cs.length == k && cs.all (· == want) && ex == "in-time" && dr
+    let base := (match endS with | "TERM" => "sigterm" | "INT" => "sigint" | "exit" => "exit-call" | _ => "fatal-call")
+      ++ (if n > 0 then "-after-sighup" else "") ++ (if again != "" then "+second-event" else "")
+    let tag := if !ign then base ++ ":sighup-not-ignored" else if cs.length != k || !cs.all (· == want) then base ++ ":handler-not-called"
+               else if ex != "in-time" then base ++ ":process-does-not-end" else if !dr then base ++ ":not-drained" else base
+    return ({ model := m, agree := m == core, spec := sp, nontrivial := n > 0 || again != "" || k > 1, tag := tag } : Verdict).toJson
+  | _, _, _, _ =>
+    return ({ model := m, agree := false, spec := true, nontrivial := false, tag := "impl-unparsed" } : Verdict).toJson
+
+def streams : List (String × Handler) := [("c18.shutdown", shutdownH), ("c18.process", processH), ("c18.exit", exitH)]
 end Fabio.Driver.C18
